@@ -13,6 +13,8 @@ dynamic arrays share the range / usability checks; each side's rent / size updat
 executed on that side's account and every caller passes (lower, upper, lower, upper).
 Also decided: searches and resize flags agree between the encodings and packagings (C10.R3 instances and
 three C12.R5 pairs re-decided here);
+Also decided: callers grow (and fund) the arrays before writing ticks on an increase and write before shrinking on a
+decrease; tick conversions (TickUpdate <-> Tick <-> dynamic slot) copy every field by name.
 Not decided: equality of answers over update sequences; well-formedness over histories."""
 from analysis import cfg, atoms as A, preach, layout as L, writes, poly as P
 from analysis.ir import callee_path, AnchorMissing
